@@ -106,6 +106,9 @@ func (r *replayer) runNative(hs harnessSpec, env []string, timeout time.Duration
 	defer cancel()
 	cmd := exec.CommandContext(ctx, bin, "-test.run", "^TestVerifReplay$", "-test.count=1", "-test.v")
 	cmd.Dir = filepath.Join(*flagRepo, "lib", hs.Dir)
+	if st, err := os.Stat(cmd.Dir); err != nil || !st.IsDir() {
+		cmd.Dir = filepath.Join(*flagRepo, "lib") // overlay-only package directory
+	}
 	cmd.Env = append(os.Environ(), env...)
 	var buf bytes.Buffer
 	cmd.Stdout = &buf
@@ -113,6 +116,9 @@ func (r *replayer) runNative(hs harnessSpec, env []string, timeout time.Duration
 	err = cmd.Run()
 	timedOut := ctx.Err() == context.DeadlineExceeded
 	out := buf.String()
+	if err != nil && out == "" {
+		out = "native run failed: " + err.Error()
+	}
 	if len(out) > 20000 {
 		out = out[:10000] + "\n…\n" + out[len(out)-10000:]
 	}
